@@ -292,6 +292,9 @@ def summarise(spec, result, info):
     pr["actors:%d" % len(spec["actors"])] = 1
     if any(a.get("reuse") for a in spec["actors"]):
         pr["actor_reuses_own_instances"] = 1
+    if info.get("rec_mismatches"):
+        pr["recursion_mismatch_rechecked"] = info["rec_mismatches"]
+        pr["recursion_mismatch_dismissed_as_not_robust"] = info.get("rec_mismatches_not_robust", 0)
     if result.get("blocked_waits"):
         pr["waits_on_simulated_locks"] = result["blocked_waits"]
     sites = result.get("switch_sites") or {}
